@@ -613,7 +613,8 @@ def run(ctx):
         rep = json.load(open(ctx.replay))["replay"]
         cases = [(rep["input_line"], rep.get("single_call_lines", [rep["input_line"]]), meta_of_single(rep.get("single_call_lines", [rep["input_line"]])[0], "replay"))]
         cases[0][2]["calls"] = len(cases[0][1])
-    hout, logs = vlib.run_harness(binary, [c[0] for c in cases])
+    from checks.c15 import run_harness_confirmed
+    hout, logs, retried = run_harness_confirmed(binary, [c[0] for c in cases])
     # per-call records: (object index, call index, single line, harness output of that call)
     calls = []
     for oi, ((hline, singles, meta), h) in enumerate(zip(cases, hout)):
@@ -700,7 +701,7 @@ def run(ctx):
         "style_histogram": hist, "branch_histogram": branch, "numeric": stats, "notes_outside_property": notes,
         "traces_validated_against_impl": len([d for d in dmap if d is not None]),
         "model_vs_impl_disagreements": len(corr_bad), "property_failures_on_impl": len(prop_bad),
-        "sanitizer_crashes": len(logs),
+        "sanitizer_crashes": len(logs), "crashed_cases_rerun_individually": retried,
     })
     ctx.assumptions += [
         "inverse routine: every matrix the model run inverts is inverted once and certified exactly over Q (A X = 1, X A = 1)",
